@@ -134,7 +134,7 @@ def check_case(case):
     if case["kind"] == "table":
         no, cc = case["no"], case["cc"]
         key = "Sg%d/%s" % (no, cc)
-        g = sg.sg(sgno=no, cell_choice=cc)
+        g = sg.sg(sgno=no, cell_choice="".join(list(cc)))  # the setting as a string built at run time, not a source literal
         # the raw table object, if the library still keeps one class per group (an implementation detail: not demanded)
         raw = getattr(sglib, "Sg%d" % no)(cell_choice=cc) if hasattr(sglib, "Sg%d" % no) else None
         if raw is not None:
